@@ -262,6 +262,7 @@ pub fn run_case(out: &mut Out, prop: &str, case: &PairCase) -> Option<CaseResult
                     if first_deposit_done && (cur.lp[0] < MIN_LIQ || cur.supply < MIN_LIQ) { out.monitor_fail("C01", "minimum-liquidity stake no longer locked in the pool", replay(k, "min liquidity")); }
                 }
                 if prop == "C07" {
+                    if let Some(m) = w.ledger_queries_disagree() { out.monitor_fail("C07", &m, replay(k, "single-asset ledger query")); }
                     let mut charged = [0u128; 2]; let mut burned = [0u128; 2];
                     if let POp::Swap { dir, x, .. } = op {
                         let ai = if *dir { 0 } else { 1 }; let oi = 1 - ai;
